@@ -111,7 +111,7 @@ def _batch2(fn, src, toks, muts):
 
 def _copy(root):
     d = tempfile.mkdtemp(prefix='mut_')
-    subprocess.run(['rsync', '-a', '--exclude', 'target', '--exclude', '.git', root + '/', d + '/'], check=True)
+    subprocess.run(['rsync', '-a', '--exclude', 'target', '--exclude', '.git', root + '/', d + '/'], check=True)     # <root> must be a clean copy, never /repo while a patch may be applied there
     return d
 
 def _apply(d, root, m):
